@@ -3,8 +3,8 @@ import itertools
 import wire
 from wire import mk_fmt, cells
 from props.common import reply_fmt, guarded, canon_cells, PALETTE
-from props.widthenv import (SEQ_ALPHA, SEQ_TEXTS, ALPHA3, wc, env_fields, text_of, cut_layouts, self_check, realize, shared_variants,
-                            shared_case_fields, pool_size, pool_object, safe_oracle, safe_impl)
+from props.widthenv import (BIG, HUGE, long_text, SEQ_ALPHA, SEQ_TEXTS, ALPHA3, wc, env_fields, text_of, cut_layouts, self_check, realize, shared_variants,
+                            shared_case_fields, pool_size, pool_object, safe_oracle, safe_impl, limit_memory)
 import curtsies.formatstring as F
 
 PROP = "C10"
@@ -18,7 +18,7 @@ RULE = ("exhaustive: every string of length <=4 (quick and thorough; <=5 thoroug
         "of a different total width` (strings <=3, k = 1, 2) and on objects from random public-API programs with observations "
         "interleaved (common.api_pool, also over texts with wide/combining characters); tie-only extras: "
         "None/negative/reversed bounds, int indices, control characters (width -1), the module-level width_aware_slice and "
-        "interval_overlap on all integer quadruples in [-1,4]^4; .width of every string <=4 cross-checked against the cursor "
+        "LARGE bounds/offsets (255..258, 300, 1000, 65537) on 400- and 65577-column strings; interval_overlap on all integer quadruples in [-1,4]^4; .width of every string <=4 cross-checked against the cursor "
         "advance of the pyte terminal emulator. non-trivial = distinct case whose "
         "string contains a wide or combining character, or that raises")
 ASSUMPTIONS = ["the property is stated for column ranges 0 <= a <= b <= width+2 over characters of width 0, 1 or 2 "
@@ -83,6 +83,27 @@ def mk_cases(ctx):
                     fields = shared_case_fields(spec)
                     t = text_of(fields["f"])
                     ops_for(fields, len(t), sum(wc(c) for c in t))
+    # LARGE numbers (every column range / every offset): bounds and offsets around 256 and beyond 65536 on long strings
+    for kind in ("narrow", "wide", "comb", "mixed"):
+        t = long_text(kind, 400)
+        W = sum(wc(x) for x in t)
+        h = len(t) // 2
+        for ch in ([(t, dict(PALETTE[1]))], [(t[:h], dict(PALETTE[1])), (t[h:], dict(PALETTE[2]))]):
+            fields = dict(f=ch)
+            shared.append(dict(op="width", **fields))
+            for n in (255, 256, 257, 258, len(t), len(t) + 1):
+                shared.append(dict(op="widthat", n=n, **fields))
+            for a, b in ((0, 255), (0, 256), (0, 257), (1, 258), (255, 257), (256, 256), (256, 257), (257, 300), (256, W),
+                         (257, W + 2), (0, W), (300, 1000)):
+                if a <= b <= W + 2 or b == 1000:
+                    shared.append(dict(op="slice", a=a, b=min(b, W + 2), **fields))
+    t = long_text("narrow", HUGE + 40)
+    for ch in ([(t, dict(PALETTE[1]))],) + (([(t[:HUGE], dict(PALETTE[1])), (t[HUGE:], dict(PALETTE[2]))],) if ctx.thorough else ()):
+        fields = dict(f=ch)
+        shared.append(dict(op="width", **fields))
+        shared.append(dict(op="widthat", n=HUGE, **fields))
+        for a, b in ((0, HUGE), (HUGE - 1, HUGE + 1), (HUGE, HUGE + 40)):
+            shared.append(dict(op="slice", a=a, b=b, **fields))
     # SEQUENCES: widths are per code point ("two per double-width character, none per combining character"), also where a
     # sequence-aware table would collapse them (emoji + skin-tone modifier, base + VS16, ZWJ sequences) and for code points
     # on which width tables disagree (Indic spacing marks)
@@ -437,6 +458,7 @@ def pyte_width_crosscheck(ctx):
 
 
 def check(ctx):
+    limit_memory()
     self_check(ctx)
     pyte_width_crosscheck(ctx)
     cases, extra = mk_cases(ctx)
